@@ -60,6 +60,11 @@ pub enum Op {
         via_json: bool,
         opts: Opts,
     },
+    /// The staged API the way a language binding uses it, with the RQ *document* altered
+    /// between the stages (written by hand, by another tool or by another version): source →
+    /// PL → RQ → JSON → one seeded edit of the JSON → `json::to_rq` → `rq_to_sql`. The edit is
+    /// a function of `edit` and the document, so the reference context makes the same one.
+    StagedRqEdit { src: String, edit: u32, opts: Opts },
     /// `prql_to_pl` → `pl_to_prql`
     Fmt { src: String },
     /// `prql_to_pl` → `pl_to_rq` → `json::from_rq`
@@ -109,6 +114,7 @@ impl Op {
             Op::Staged { .. } => "staged",
             Op::StagedJson { .. } => "staged_json",
             Op::StagedSplit { .. } => "staged_split",
+            Op::StagedRqEdit { .. } => "staged_rq_edit",
             Op::Fmt { .. } => "fmt",
             Op::Rq { .. } => "rq",
             Op::Tokens { .. } => "tokens",
@@ -129,6 +135,7 @@ impl Op {
             | Op::Staged { src, .. }
             | Op::StagedJson { src, .. }
             | Op::StagedSplit { src, .. }
+            | Op::StagedRqEdit { src, .. }
             | Op::Fmt { src }
             | Op::Rq { src }
             | Op::EditInPlace { src, .. }
@@ -142,6 +149,7 @@ impl Op {
             | Op::Staged { src, .. }
             | Op::StagedJson { src, .. }
             | Op::StagedSplit { src, .. }
+            | Op::StagedRqEdit { src, .. }
             | Op::Fmt { src }
             | Op::Rq { src }
             | Op::EditInPlace { src, .. }
@@ -154,6 +162,7 @@ impl Op {
             Op::Compile { opts, .. }
             | Op::Staged { opts, .. }
             | Op::StagedJson { opts, .. }
+            | Op::StagedRqEdit { opts, .. }
             | Op::StagedSplit { opts, .. }
             | Op::Project { opts, .. } => Some(opts),
             _ => None,
@@ -394,6 +403,82 @@ fn decode_path(s: &str) -> PathBuf {
     PathBuf::from(std::ffi::OsString::from_vec(out))
 }
 
+/// One edit of an RQ document, chosen by `edit`: an operator name without its `std.`
+/// prefix, an operator name that names a module, two table declarations swapped, `prefer_cte`
+/// flipped everywhere, a column name changed, or only the layout of the text.
+fn edit_rq_json(doc: &str, edit: u32) -> String {
+    use serde_json::Value;
+    let mut v: Value = match serde_json::from_str(doc) {
+        Ok(v) => v,
+        Err(_) => return doc.to_string(),
+    };
+    fn operators<'a>(v: &'a mut Value, out: &mut Vec<&'a mut Value>) {
+        match v {
+            Value::Object(m) => {
+                for (k, x) in m.iter_mut() {
+                    if k == "Operator" && x.get("name").is_some() {
+                        out.push(x);
+                    } else {
+                        operators(x, out);
+                    }
+                }
+            }
+            Value::Array(a) => {
+                for x in a {
+                    operators(x, out);
+                }
+            }
+            _ => {}
+        }
+    }
+    fn flip_cte(v: &mut Value) {
+        match v {
+            Value::Object(m) => {
+                for (k, x) in m.iter_mut() {
+                    if k == "prefer_cte" {
+                        if let Value::Bool(b) = x {
+                            *b = !*b;
+                        }
+                    } else {
+                        flip_cte(x);
+                    }
+                }
+            }
+            Value::Array(a) => a.iter_mut().for_each(flip_cte),
+            _ => {}
+        }
+    }
+    let which = (edit / 8) as usize;
+    match edit % 8 {
+        0 | 1 => {
+            let mut ops = Vec::new();
+            operators(&mut v, &mut ops);
+            if !ops.is_empty() {
+                let i = which % ops.len();
+                if let Some(Value::String(name)) = ops[i].get_mut("name") {
+                    if edit % 8 == 0 {
+                        *name = name.trim_start_matches("std.").to_string();
+                    } else {
+                        *name = ["std.math", "std.text", "std.date", "std"][which % 4].to_string();
+                    }
+                }
+            }
+        }
+        2 => {
+            if let Some(Value::Array(t)) = v.get_mut("tables") {
+                if t.len() >= 2 {
+                    let i = which % (t.len() - 1);
+                    t.swap(i, i + 1);
+                }
+            }
+        }
+        3 => flip_cte(&mut v),
+        4 => return serde_json::to_string_pretty(&v).unwrap_or_else(|_| doc.to_string()),
+        _ => {}
+    }
+    serde_json::to_string(&v).unwrap_or_else(|_| doc.to_string())
+}
+
 fn do_op(op: &Op) -> Obs {
     match op {
         Op::Compile { src, opts } => {
@@ -426,6 +511,24 @@ fn do_op(op: &Op) -> Obs {
                 .and_then(|j| prqlc::json::to_rq(&j))
                 .and_then(|rq| prqlc::rq_to_sql(rq, &o));
             match r {
+                Ok(sql) => Obs::ok(sql),
+                Err(e) => Obs::err(err_json(&e)),
+            }
+        }
+        Op::StagedRqEdit { src, edit, opts } => {
+            let o = match opts.to_options() {
+                Ok(o) => o,
+                Err(e) => return Obs::err(format!("OPTS {}", err_json(&e))),
+            };
+            let doc = match prqlc::prql_to_pl(src)
+                .and_then(prqlc::pl_to_rq)
+                .and_then(|rq| prqlc::json::from_rq(&rq))
+            {
+                Ok(j) => j,
+                Err(e) => return Obs::err(err_json(&e)),
+            };
+            let doc = edit_rq_json(&doc, *edit);
+            match prqlc::json::to_rq(&doc).and_then(|rq| prqlc::rq_to_sql(rq, &o)) {
                 Ok(sql) => Obs::ok(sql),
                 Err(e) => Obs::err(err_json(&e)),
             }
